@@ -442,15 +442,15 @@ def correspond(ctx):
     cl = corpus_lines()
     if cl:
         judge(ctx, binary, [l for l in cl if not l.startswith("api ")], "corpus", do_shrink=False)
-    plan = [("sqd", lambda: c_sqd(r.fork()), 120, 3000),
+    plan = [("sqd", lambda: c_sqd(r.fork()), 120, 2000),
             ("zm", lambda: c_zm(r.fork()), 40, 600),
-            ("sym", lambda: c_sym(r.fork()), 300, 10000),
-            ("vps", lambda: c_vps(r.fork(), big=not quick), 250, 8000),
-            ("gpd", lambda: c_gpd(r.fork()), 16, 400),
-            ("gpk", lambda: c_gpk(r.fork()), 24, 500),
-            ("exg", lambda: c_exg(r.fork(), fd=False), 80, 2500),
+            ("sym", lambda: c_sym(r.fork()), 300, 6000),
+            ("vps", lambda: c_vps(r.fork(), big=not quick), 250, 5000),
+            ("gpd", lambda: c_gpd(r.fork()), 16, 300),
+            ("gpk", lambda: c_gpk(r.fork()), 24, 400),
+            ("exg", lambda: c_exg(r.fork(), fd=False), 80, 1500),
             ("exg-fd", lambda: c_exg(r.fork(), fd=True), 10, 200),
-            ("bhg", lambda: c_bhg(r.fork()), 120, 5000),
+            ("bhg", lambda: c_bhg(r.fork()), 120, 3000),
             ("bhg-dims", lambda: c_bhg(r.fork(), d=r.choice([1, 3])), 6, 60)]
     for name, gen, nq, nt in plan:
         ctx.log("stage", name)
